@@ -596,6 +596,7 @@ func runC04(p *core.Program, r *core.Report) {
 	staleLengthRule(p, r, regionNames)
 	makeLengthRule(p, r, regionNames)
 	subtractiveIndexRule(p, r, regionNames)
+	lexerProgressRule(p, r)
 	r.Analysed["K1_explicit_panics_in_U"] = nK1
 	r.Analysed["K2_hard_assertions_in_U"] = nK2
 
@@ -827,5 +828,7 @@ func c04Controls() []core.Mutant {
 		{Name: "dynamic call before the recover is deferred", File: "compiler/compiler.go", Old: "func Compile(tree *parser.Tree, config *conf.Config) (program *Program, err error) {\n\tdefer func() {", New: "func Compile(tree *parser.Tree, config *conf.Config) (program *Program, err error) {\n\t_ = tree.Node.Location()\n\tdefer func() {", Rule: "R4.1", Construct: "compiler.Compile"},
 		{Name: "hard assertion before the recover is deferred", File: "compiler/compiler.go", Old: "func Compile(tree *parser.Tree, config *conf.Config) (program *Program, err error) {\n\tdefer func() {", New: "func Compile(tree *parser.Tree, config *conf.Config) (program *Program, err error) {\n\t_ = tree.Node.(*ast.NilNode)\n\tdefer func() {", Rule: "R4.3", Construct: "before the recover"},
 		{Name: "refactor: ConstExpr defers first", File: "conf/config.go", Old: "\tif c.Env == nil {\n\t\tc.Error(fmt.Errorf(\"no environment for const expression: %v\", name))\n\t\treturn\n\t}\n\tdefer func() {\n\t\tif r := recover(); r != nil {\n\t\t\t// FetchFn panics when the environment has no such member.\n\t\t\tc.Error(fmt.Errorf(\"const expression %q: %v\", name, r))\n\t\t}\n\t}()\n", New: "\tdefer func() {\n\t\tif r := recover(); r != nil {\n\t\t\tc.Error(fmt.Errorf(\"const expression %q: %v\", name, r))\n\t\t}\n\t}()\n\tif c.Env == nil {\n\t\tc.Error(fmt.Errorf(\"no environment for const expression: %v\", name))\n\t\treturn\n\t}\n", Silent: true},
+		{Name: "line-offset lookup without the lower bound", File: "file/source.go", Old: "} else if line > 1 && line <= len(s.lineOffsets) {", New: "} else if line <= len(s.lineOffsets) {", Rule: "R4.3", Construct: "is not negative"},
+		{Name: "identifier state absorbs by another predicate than the dispatcher", File: "parser/lexer/state.go", Old: "\t\tcase IsAlphaNumeric(r):\n\t\t\t// absorb", New: "\t\tcase IsAlphabetic(r) || ('0' <= r && r <= '9'):\n\t\t\t// absorb", Rule: "R4.3", Construct: "the un-read rune is consumed"},
 	}
 }
